@@ -55,6 +55,8 @@ pub struct SimFs {
     pub files: RefCell<BTreeMap<PathBuf, Vec<u8>>>,
     /// k-th `read_*` call (0-based, counted per process since boot/restore) fails with this error.
     pub read_faults: RefCell<BTreeMap<u64, IoFault>>,
+    /// Files that exist but cannot be read (by path).
+    pub unreadable: RefCell<BTreeMap<PathBuf, IoFault>>,
     pub reads: Cell<u64>,
     pub writes: Cell<u64>,
     pub faults_fired: RefCell<BTreeMap<&'static str, u64>>,
@@ -81,6 +83,18 @@ impl SimFs {
                 IoFault::Eio => "fs_read_eio",
                 IoFault::InvalidData => "fs_read_invalid_data",
                 _ => "fs_read_other",
+            });
+            self.read_log
+                .borrow_mut()
+                .push((path.display().to_string(), false));
+            return Err(f.to_error());
+        }
+        if let Some(f) = self.unreadable.borrow().get(path) {
+            self.bump(match f {
+                IoFault::PermissionDenied => "fs_unreadable_eperm",
+                IoFault::Eio => "fs_unreadable_eio",
+                IoFault::InvalidData => "fs_unreadable_invalid_data",
+                _ => "fs_unreadable_other",
             });
             self.read_log
                 .borrow_mut()
